@@ -23,6 +23,11 @@ VARIANTS = {
     'on-columns-map': 'select * from int1.t1 as t join mindsdb.pred as m on t.a = m.k where {W}',
     'using': 'select * from int1.t1 as t join mindsdb.pred as m where {W} using Opt1 = 1, m.opt2 = \'x\'',
     'two-tables': 'select * from int1.t1 as t join int2.t2 as u on t.a = u.a join mindsdb.pred as m where {W}',
+    'constant-first': 'select * from int1.t1 as t join mindsdb.pred as m where {WF}',
+    'constant-first-two-tables': 'select * from int1.t1 as t join int2.t2 as u on t.a = u.a join mindsdb.pred as m where {WF}',
+    'cte-named-like-model': 'with pred as (select a, b from int1.t3) select * from int1.t1 as t join mindsdb.pred as m where {W}',
+    'cte-named-like-model-used': 'with pred as (select a, b from int1.t3) select * from int1.t1 as t join pred as c on c.a = t.a '
+                                 'join mindsdb.pred as m where {W}',
     'versioned-project-model': 'select * from int1.t1 as t join proj.pred2.4 as m where {W}',
     'target-given-as-string': 'select * from int1.t1 as t join proj.pred3 as m where {W}',
     'target-given-as-list': 'select * from int1.t1 as t join proj.pred4 as m where {W}',
@@ -33,14 +38,20 @@ VARIANTS = {
 }
 
 
-def render(w):
+MIRROR = {'=': '=', '>': '<', '<': '>', '>=': '<=', '<=': '>=', '!=': '!=', '<>': '<>'}
+
+
+def render(w, flip=False):
+    """flip: atoms on TABLE columns are written constant-first with the mirrored operator (`2 < t.a` for `t.a > 2`)."""
     k = w['k']
     if k == 'atom':
         tab, col, op, c = ATOMS[w['id']]
+        if flip and tab == 't':
+            return '%d %s %s.%s' % (c, MIRROR[op], tab, col)
         return '%s.%s %s %d' % (tab, col, op, c)
     if k == 'not':
-        return 'not (%s)' % render(w['a'])
-    return '(%s %s %s)' % (render(w['a']), k, render(w['b']))
+        return 'not (%s)' % render(w['a'], flip)
+    return '(%s %s %s)' % (render(w['a'], flip), k, render(w['b'], flip))
 
 
 def match_atom(node, with_alias):
@@ -48,11 +59,14 @@ def match_atom(node, with_alias):
     if type(node).__name__ != 'BinaryOperation' or len(node.args) != 2:
         return None
     a, b = node.args
+    nop = str(node.op).lower()
+    if type(a).__name__ == 'Constant' and type(b).__name__ == 'Identifier' and nop in MIRROR:
+        a, b, nop = b, a, MIRROR[nop]        # constant-first spelling of the same comparison
     if type(a).__name__ != 'Identifier' or type(b).__name__ != 'Constant':
         return None
     parts = [str(p).lower() for p in a.parts]
     for i, (tab, col, op, c) in ATOMS.items():
-        if parts[-1] == col and str(node.op).lower() == op and b.value == c:
+        if parts[-1] == col and nop == op and b.value == c:
             if len(parts) > 1 and parts[-2] != tab:
                 continue
             return i
@@ -93,7 +107,7 @@ def _case(args):
     from mindsdb_sql.planner import plan_query
     from mindsdb_sql.exceptions import PlanningException
     from .project import walk_objects
-    sql = VARIANTS[variant].replace('{W}', render(w))
+    sql = VARIANTS[variant].replace('{WF}', render(w, True)).replace('{W}', render(w))
     out = {'sql': sql, 'variant': variant}
     try:
         plan = plan_query(parse_sql(sql, 'mindsdb'), **plancorpus.catalog('dicts'))
